@@ -1373,6 +1373,37 @@ func (g *Gen) stableComps() map[string]bool {
 			}
 		}
 		if c, ok := e.(*Call); ok && c.Fun == "elems" && len(c.Args) == 1 {
+			// stable elems(*pkg.T) / elems(pkg.T): slices whose elements have that type (e.g. a local slice literal of list pointers)
+			var tn string
+			ptr := false
+			arg := c.Args[0]
+			if d, ok := arg.(*Deref); ok {
+				ptr = true
+				arg = d.X
+			}
+			switch a := arg.(type) {
+			case *Ident:
+				tn = a.Name
+			case *Field:
+				if id, ok := a.X.(*Ident); ok {
+					tn = id.Name + "." + a.Name
+				}
+			}
+			if tn != "" {
+				root := strings.SplitN(tn, ".", 2)[0]
+				if _, isVar := env.vars[root]; !isVar {
+					if t, terr := g.W.lookupType(&TypeX{Kind: "name", Name: tn}, env.pkgPath); terr == nil {
+						if ptr {
+							t = types.NewPointer(t)
+						}
+						for _, l := range g.W.shapes.shape(t) {
+							g.stableKeys[g.elemCompKey(t, l.Path)] = true
+						}
+						g.note("elements assumed not to be written by opaque callees: " + g.fc.StableSrc[i])
+						continue
+					}
+				}
+			}
 			// stable elems(x): the element components of x's element type
 			g.dryFacts++
 			sv := env.eval(c.Args[0])
